@@ -90,6 +90,9 @@ def check_run(ctx, req, x, tag, stats, replay_reqs):
                       signature="driver-error", found_input="panic" in x)
         return
     stats["runs"] += 1
+    for k in ("audit", "audit_after", "cas_keys", "target_keys", "events", "followup", "outcomes"):
+        x[k] = x.get(k) or []           # Go nil slices arrive as null
+    x["outcomes"] = [p or [] for p in x["outcomes"]]
     for p in x["outcomes"]:
         for o in p:
             stats["outcome"][o] = stats["outcome"].get(o, 0) + 1
